@@ -30,7 +30,12 @@ ID = "C17"
 ENGINE = "HISTX"
 BUILDS = ("pure", "compiled")
 RULE = ("every @async_generator body = sequence over {yield Value, await blocking batch item, await ConstFuture, await "
-        "@asynq task} up to length 5 (quick) / 7 (thorough), plus nested bodies (every inner body up to length 3/4 "
+        "@asynq task} up to length 5 (quick) / 7 (thorough); every body up to length 4 (quick) / 5 (thorough) over the "
+        "extended 10-step alphabet that adds Values whose payload is itself a future (an uncomputed @asynq task object, a "
+        "ConstFuture - delivered by identity, never run by the machinery) and awaits of the falsy structures [] () {} None, "
+        "so that each of them occurs first, after a Value and after an await (histories of length 3 up to body length 3 "
+        "(quick) / 4 (thorough), length 2 for the longest bodies); Value tokens carry what the preceding await received; "
+        "plus nested bodies (every inner body up to length 3/4 "
         "inside 9 outer templates, and 2-level nesting); consumers: list_of_generator, take_first(gen, n)+list for every "
         "n in 0..len+1 under two calling conventions, and every consumer history of length <= 3 (quick) / 4 (thorough; 3 "
         "for bodies of length 7) "
@@ -51,12 +56,19 @@ ASSUMPTIONS = [
     "a history of length H also decides each of its prefixes (operations are deterministic and judged one by one)",
 ]
 
-ALPHA = "VBKT"
+ALPHA = "VBKT"  # core steps: yield Value(token) / await blocking batch item / await ConstFuture / await @asynq task
+# extended steps: F = yield Value(<uncomputed @asynq task object>), C = yield Value(<ConstFuture object>) - a Value whose
+# payload is itself a future must be delivered as is (identity); L P D N = await of a falsy structure: [] () {} None
+ALPHA_EXT = "VBKTFCLPDN"
+VALUE_KINDS = "VFC"
+FALSY = {"L": list, "P": tuple, "D": dict, "N": None}
 OPS = ["tf0", "tf1", "tf2", "ls", "nx", "nn", "cp"]
 BOUNDS = {
     # H: history length for bodies up to length Lhist; longer bodies (up to L) get histories of length H2
-    "quick": {"L": 5, "H": 3, "Ln": 3, "Hn": 2, "Lhist": 5, "H2": 3},
-    "thorough": {"L": 7, "H": 4, "Ln": 4, "Hn": 3, "Lhist": 6, "H2": 3},
+    # Lx: bodies over the extended alphabet; histories of length Hx up to body length Lxh, Hx2 for longer ones;
+    # Lnx: nested inner bodies over the extended alphabet
+    "quick": {"L": 5, "H": 3, "Ln": 3, "Hn": 2, "Lhist": 5, "H2": 3, "Lx": 4, "Lxh": 3, "Hx": 3, "Hx2": 2, "Lnx": 2},
+    "thorough": {"L": 7, "H": 4, "Ln": 4, "Hn": 3, "Lhist": 6, "H2": 3, "Lx": 5, "Lxh": 4, "Hx": 3, "Hx2": 2, "Lnx": 3},
 }
 MAX_VIOL_PER_JOB = 12
 
@@ -64,12 +76,61 @@ MAX_VIOL_PER_JOB = 12
 # body terms:  a term is a list of steps; a step is "V" | "B" | "K" | "T" | ["G", term]
 
 
-def term_of_index(L, idx):
+def term_of_index(L, idx, alpha=ALPHA):
     out = []
+    n = len(alpha)
     for _ in range(L):
-        out.append(ALPHA[idx % 4])
-        idx //= 4
+        out.append(alpha[idx % n])
+        idx //= n
     return out
+
+
+def is_core(term):
+    for s in term:
+        if isinstance(s, str):
+            if s not in ALPHA:
+                return False
+        elif not is_core(s[1]):
+            return False
+    return True
+
+
+class Obj(object):
+    """reference-side stand-in for 'the very object that step i wrapped in Value(...)'"""
+
+    __slots__ = ("i",)
+
+    def __init__(self, i):
+        self.i = i
+
+    def __repr__(self):
+        return "<the future wrapped by step %d>" % self.i
+
+
+def same(got, exp, R):
+    """got (from the implementation) is the expected Value payload: identity for future payloads, equality of value AND
+    container type for tokens"""
+    if exp.__class__ is Obj:
+        return got is R.payloads.get(exp.i, R)
+    if got.__class__ is not exp.__class__:
+        return False
+    if exp.__class__ is tuple:
+        if len(got) != len(exp):
+            return False
+        for a, b in zip(got, exp):
+            if not same(a, b, R):
+                return False
+        return True
+    return got == exp
+
+
+def same_list(got, exp, R):
+    if len(got) != len(exp):
+        return False
+    for a, b in zip(got, exp):
+        if not same(a, b, R):
+            return False
+    return True
 
 
 def flatten(term, depth=0, out=None):
@@ -82,7 +143,7 @@ def flatten(term, depth=0, out=None):
     for s in term:
         if isinstance(s, str):
             out.append((s, depth, prev))
-            if s != "V":
+            if s not in VALUE_KINDS:
                 prev = expected_await(s, len(out) - 1)
         else:
             flatten(s[1], depth + 1, out)
@@ -94,11 +155,14 @@ def expected_await(kind, i):
         return ("b", i)
     if kind == "K":
         return ("k", i)
+    if kind in FALSY:
+        f = FALSY[kind]
+        return None if f is None else f()
     return ("t", ("tb", i))
 
 
-def token(i, depth, prev):
-    v = ("v", i, prev)
+def token(i, depth, prev, kind="V"):
+    v = ("v", i, prev) if kind == "V" else Obj(i)
     for _ in range(depth):
         v = ("o", v)
     return v
@@ -112,7 +176,16 @@ OUTER_PRE = [[], ["V"], ["B"]]
 OUTER_POST = [[], ["V"], ["B"]]
 
 
-def nested_terms(Ln):
+def nested_terms(Ln, Lnx=0):
+    # inner bodies over the extended alphabet (those with at least one extended step; the others follow below)
+    for L in range(1, Lnx + 1):
+        for idx in range(len(ALPHA_EXT) ** L):
+            inner = term_of_index(L, idx, ALPHA_EXT)
+            if is_core(inner):
+                continue
+            for pre in OUTER_PRE:
+                for post in OUTER_POST:
+                    yield pre + [["G", inner]] + post
     for L in range(0, Ln + 1):
         for idx in range(4 ** L):
             inner = term_of_index(L, idx)
@@ -146,16 +219,16 @@ class Model(object):
         return (self.pos, self.ended, self.pending)
 
     def remaining(self):
-        return [token(i, d, p) for i, (k, d, p) in enumerate(self.prims) if k == "V" and i >= self.pos]
+        return [token(i, d, p, k) for i, (k, d, p) in enumerate(self.prims) if k in VALUE_KINDS and i >= self.pos]
 
     def advance(self):
         """-> (True, token, index) for the next Value, or (False, None, None): ran to the end"""
         if not self.ended:
             for i in range(self.pos, self.n):
                 k, d, p = self.prims[i]
-                if k == "V":
+                if k in VALUE_KINDS:
                     self.pos = i + 1
-                    return True, token(i, d, p), i
+                    return True, token(i, d, p, k), i
         self.pos = self.n
         self.ended = True
         return False, None, None
@@ -180,13 +253,14 @@ _rt = None
 
 
 class _Run(object):
-    __slots__ = ("last", "entered", "ended", "got")
+    __slots__ = ("last", "entered", "ended", "got", "payloads")
 
     def __init__(self):
         self.last = -1  # global index of the last primitive step begun
         self.entered = 0  # top-level body entered
         self.ended = 0  # top-level body ran off its end
         self.got = []  # (index, value received from the await)
+        self.payloads = {}  # index -> the future object wrapped in Value(...) by an F / C step
 
 
 def _runtime():
@@ -221,8 +295,22 @@ def _runtime():
                 R.last = idx
                 if s == "V":
                     yield Value(("v", idx, prev))
+                elif s == "F":
+                    R.payloads[idx] = sub.asynq(("payload", idx))  # handed out for the consumer to await; never run here
+                    yield Value(R.payloads[idx])
+                elif s == "C":
+                    R.payloads[idx] = ConstFuture(("payload", idx))
+                    yield Value(R.payloads[idx])
                 else:
-                    if s == "B":
+                    if s == "L":
+                        prev = yield []
+                    elif s == "P":
+                        prev = yield ()
+                    elif s == "D":
+                        prev = yield {}
+                    elif s == "N":
+                        prev = yield None
+                    elif s == "B":
                         prev = yield DebugBatchItem("c17b", ("b", idx))
                     elif s == "K":
                         prev = yield ConstFuture(("k", idx))
@@ -322,7 +410,7 @@ def run_history(term, ops, conv, stats=None):
                     exp, last = [], "same"
                 else:
                     exp, last = m.take(n)
-                if res != exp:
+                if not same_list(res, exp, R):
                     if n == 0:
                         raise Bad("take_first-zero", "%s returned %r, expected [] (remaining Values: %r)"
                                   % (where, res, m.remaining()), feats + ["clause:result"])
@@ -382,20 +470,25 @@ def run_history(term, ops, conv, stats=None):
                     dangling = fut
                     m.pending = True
                 else:
-                    _judge_value(m, fut, where, feats, END)
+                    _judge_value(m, fut, where, feats, END, R)
             elif op == "cp":
                 feats = ["consumer:next", "op:cp"]
                 if m.pending:
                     m.pending = False
                     fut, dangling = dangling, None
-                    _judge_value(m, fut, where, feats, END)
+                    _judge_value(m, fut, where, feats, END, R)
             else:
                 raise ValueError(op)
             seen.add(m.key())
+        # a task handed out as a Value's payload is the consumer's to run: nobody ran it here
+        for i, obj in R.payloads.items():
+            if prims[i][0] == "F" and obj.is_computed():
+                raise Bad("payload-computed", "history %s on body %s: the task wrapped by step %d was computed by the "
+                          "generator machinery" % (ops, term_str(term), i), ["consumer:body"])
         # awaits inside the body received what they awaited
         lasti = -1
         for i, val in R.got:
-            if i <= lasti or prims[i][0] == "V" or val != expected_await(prims[i][0], i):
+            if i <= lasti or prims[i][0] in VALUE_KINDS or not same(val, expected_await(prims[i][0], i), R):
                 raise Bad("await-value", "history %s on body %s: await at step %d received %r (log %r)"
                           % (ops, term_str(term), i, val, R.got), ["consumer:body"])
             lasti = i
@@ -424,7 +517,7 @@ def _expect_stop(gen, where, feats):
               "StopIteration" % (where, f), feats + ["state:exhausted"])
 
 
-def _judge_value(m, fut, where, feats, END):
+def _judge_value(m, fut, where, feats, END, R):
     try:
         v = fut.value()
     except Exception as e:
@@ -433,7 +526,7 @@ def _judge_value(m, fut, where, feats, END):
     if ok:
         if v is END:
             raise Bad("next-value", "%s: got END_OF_GENERATOR although Value %r remains" % (where, exp), feats)
-        if v != exp:
+        if not same(v, exp, R):
             raise Bad("next-value", "%s: got %r, expected the next Value %r" % (where, v, exp), feats)
     elif v is not END:
         raise Bad("next-value", "%s: got %r but no Value remains (expected END_OF_GENERATOR)" % (where, v), feats)
@@ -452,7 +545,7 @@ def single_histories(term):
 
 def jobs(tier, seed):
     b = BOUNDS[tier]
-    nested = list(nested_terms(b["Ln"]))
+    nested = list(nested_terms(b["Ln"], b["Lnx"]))
     nested_chunks = list(_chunks(len(nested), 40))
     for L in range(0, b["L"] + 1):
         total = 4 ** L
@@ -462,9 +555,18 @@ def jobs(tier, seed):
         per = max(1, 2400 // (len(OPS) ** H))
         for lo, hi in _chunks(total, per):
             yield {"fam": "hist", "L": L, "lo": lo, "hi": hi, "H": H}
+        if 1 <= L <= b["Lx"]:
+            # bodies over the extended alphabet with at least one extended step (the workers skip the core-only ones)
+            total = len(ALPHA_EXT) ** L
+            for lo, hi in _chunks(total, 160):
+                yield {"fam": "single", "L": L, "lo": lo, "hi": hi, "ext": True}
+            H = b["Hx"] if L <= b["Lxh"] else b["Hx2"]
+            per = max(1, 3000 // (len(OPS) ** H))
+            for lo, hi in _chunks(total, per):
+                yield {"fam": "hist", "L": L, "lo": lo, "hi": hi, "H": H, "ext": True}
         if L == 1:
             for lo, hi in nested_chunks:
-                yield {"fam": "nested", "Ln": b["Ln"], "lo": lo, "hi": hi, "H": b["Hn"]}
+                yield {"fam": "nested", "Ln": b["Ln"], "Lnx": b["Lnx"], "lo": lo, "hi": hi, "H": b["Hn"]}
 
 
 def _chunks(total, per):
@@ -481,7 +583,7 @@ def worker_init(env):
 
 def _nontrivial(term):
     kinds = set(p[0] for p in flatten(term))
-    return "V" in kinds and len(kinds) > 1
+    return bool(kinds & set(VALUE_KINDS)) and bool(kinds - set(VALUE_KINDS))
 
 
 def run(job, env):
@@ -490,7 +592,10 @@ def run(job, env):
     res = diag.new_result()
     fam = job["fam"]
     if fam == "nested":
-        terms = list(nested_terms(job["Ln"]))[job["lo"]:job["hi"]]
+        terms = list(nested_terms(job["Ln"], job.get("Lnx", 0)))[job["lo"]:job["hi"]]
+    elif job.get("ext"):
+        terms = [term_of_index(job["L"], i, ALPHA_EXT) for i in range(job["lo"], job["hi"])]
+        terms = [t for t in terms if not is_core(t)]
     else:
         terms = [term_of_index(job["L"], i) for i in range(job["lo"], job["hi"])]
     stats = {"seen": set(), "transitions": 0}
@@ -500,7 +605,7 @@ def run(job, env):
         nstates += len(stats["seen"])  # distinct reference states (cursor, exhausted, pending) reached per body
         stats["seen"] = set()
         nt = _nontrivial(term)
-        diag.bump(res, "bodies:" + fam)
+        diag.bump(res, "bodies:" + fam + (":ext" if job.get("ext") else ""))
         if fam == "single":
             cases = [(h, c) for h in single_histories(term) for c in ("call", "task")]
         elif fam == "hist":
@@ -528,7 +633,7 @@ def run(job, env):
             res["samples"].append({"body": term_str(term), "family": fam, "cases": len(cases)})
     res["states"] = nstates + len(stats["seen"])
     res["transitions"] = stats["transitions"]
-    diag.bump(res, "histories:" + fam, res["evals"])
+    diag.bump(res, "histories:" + fam + (":ext" if job.get("ext") else ""), res["evals"])
     return res
 
 
@@ -547,4 +652,8 @@ def finish(acc, tier):
                        "history operations": OPS, "take_first n (single family)": "0..len+1",
                        "nested inner length": b["Ln"], "nested history length": b["Hn"],
                        "bodies (plain)": sum(4 ** L for L in range(b["L"] + 1)),
-                       "bodies (nested)": len(list(nested_terms(b["Ln"])))}}
+                       "extended alphabet": list(ALPHA_EXT), "extended body length": b["Lx"],
+                       "extended history length": "%d up to body length %d, %d for longer bodies"
+                                                  % (b["Hx"], b["Lxh"], b["Hx2"]),
+                       "bodies (extended, not core-only)": sum(10 ** L - 4 ** L for L in range(b["Lx"] + 1)),
+                       "bodies (nested)": len(list(nested_terms(b["Ln"], b["Lnx"])))}}
